@@ -8,6 +8,7 @@
 package diff
 
 import (
+	"errors"
 	"bytes"
 	"encoding/csv"
 	"fmt"
@@ -55,6 +56,10 @@ func CompareCells(a, b []string) int {
 	return len(a) - len(b)
 }
 
+// ErrUnreadable: the ingest reported success and the repository's own readers (objects.GetTable, GetTableIndex,
+// GetBlock - what `wrgl diff` and the merger fetch their operands with) refuse what it stored.
+var ErrUnreadable = errors.New("a table the ingest stored cannot be read back")
+
 // Build ingests header+rows (kc leading key columns, 0 = no primary key)
 // through ingest.IngestTable and reads the stored table back.
 func Build(db objects.Store, header []string, kc int, rows [][]string) (*Built, error) {
@@ -81,11 +86,11 @@ func Build(db objects.Store, header []string, kc int, rows [][]string) (*Built, 
 	}
 	tbl, err := objects.GetTable(db, sum)
 	if err != nil {
-		return nil, fmt.Errorf("get table: %v", err)
+		return nil, fmt.Errorf("%w: get table: %v", ErrUnreadable, err)
 	}
 	idx, err := objects.GetTableIndex(db, sum)
 	if err != nil {
-		return nil, fmt.Errorf("get table index: %v", err)
+		return nil, fmt.Errorf("%w: get table index: %v", ErrUnreadable, err)
 	}
 	b := &Built{Sum: sum, Tbl: tbl, Idx: idx, KC: kc}
 	var bb []byte
@@ -93,7 +98,7 @@ func Build(db objects.Store, header []string, kc int, rows [][]string) (*Built, 
 		var blk [][]string
 		blk, bb, err = objects.GetBlock(db, bb, bs)
 		if err != nil {
-			return nil, fmt.Errorf("get block: %v", err)
+			return nil, fmt.Errorf("%w: get block: %v", ErrUnreadable, err)
 		}
 		for _, r := range blk {
 			b.Rows = append(b.Rows, append([]string{}, r...))
